@@ -127,7 +127,7 @@ func (c *child) run(j job, timeout time.Duration) []engine.Result {
 
 func main() {
 	isChild := flag.Bool("child", false, "internal: run jobs from stdin")
-	profile := flag.String("profile", "mixed", "generator profile: "+strings.Join(engine.Profiles, "|"))
+	profile := flag.String("profile", "mixed", "generator profile: "+strings.Join(engine.Profiles, "|")+"|finalfn")
 	n := flag.Int("n", 300, "number of plan runs")
 	from := flag.Int("from", 0, "first case index")
 	out := flag.String("out", "-", "output file (JSONL)")
@@ -139,6 +139,18 @@ func main() {
 	flag.Parse()
 	if *isChild {
 		childMain()
+		return
+	}
+	if *profile == "finalfn" { // direct correspondence of Final.v with finalStates: pure function, no child needed
+		w, err := core.NewWriter(*out)
+		if err != nil {
+			fmt.Fprintln(os.Stderr, err)
+			os.Exit(2)
+		}
+		for _, c := range engine.FinalFn(core.Seed(), *from, *n) {
+			w.Put(c)
+		}
+		w.Close()
 		return
 	}
 	ok := false
